@@ -76,8 +76,21 @@ def implicit_output_candidates(ins):
                 out.add(("num", it.uid))
         return out
 
+    def canon(e):
+        # per dimension the ordered leaf names: redundant parentheses ('(f)' vs '((f))') do not make two candidates
+        out = []
+        for it in expand(e):
+            leafs = []
+            for x in c02.walk((it,)):
+                if isinstance(x, Ax):
+                    leafs.append(x.name)
+                elif isinstance(x, Num):
+                    leafs.append(("num", x.uid if x.size != 1 else 1))
+            out.append(tuple(leafs))
+        return tuple(out)
+
     sets = [names(e) for e in ins]
-    cands = {show_expr(e) for i, e in enumerate(ins) if all(t <= sets[i] for j, t in enumerate(sets) if j != i)}
+    cands = {canon(e) for i, e in enumerate(ins) if all(t <= sets[i] for j, t in enumerate(sets) if j != i)}
     return len(cands)
 
 
